@@ -1,6 +1,7 @@
 package checks
 
 import (
+	"bytes"
 	"context"
 	"encoding/json"
 	"errors"
@@ -83,8 +84,8 @@ func init() {
 			"reference: requirements = operation's if declared else document's; empty list or empty requirement passes; a requirement passes iff all its schemes are declared and accepted; effective parameters = operation's + path-level ones not overridden by (in,name)",
 			"in MultiError mode each failing part yields one member identifiable as security / parameter(in,name) / body",
 		},
-		Shards:     func(string) int { return 16 },
-		Run:        runC07,
+		Shards: func(string) int { return 16 },
+		Run:    runC07,
 	})
 }
 
@@ -240,6 +241,8 @@ func c07Group(c *core.Ctx, ds, os c07sec, lay c07layout, bodyReq bool) {
 		{name: "ExcludeRequestQueryParams", o: openapi3filter.Options{ExcludeRequestQueryParams: true, MultiError: true}},
 		{name: "ExcludeBoth+MultiError", o: openapi3filter.Options{ExcludeRequestBody: true, ExcludeRequestQueryParams: true, MultiError: true}},
 		{name: "MultiError+callback-reads-body", o: openapi3filter.Options{MultiError: true}, readBody: true},
+		{name: "ExcludeRequestBody+callback-reads-body", o: openapi3filter.Options{ExcludeRequestBody: true}, readBody: true},
+		{name: "ExcludeBoth+MultiError+callback-reads-body", o: openapi3filter.Options{ExcludeRequestBody: true, ExcludeRequestQueryParams: true, MultiError: true}, readBody: true},
 		{name: "MultiError+no-AuthenticationFunc", o: openapi3filter.Options{MultiError: true}, noFunc: true},
 		{name: "streamed-body", opaque: 1},
 		{name: "MultiError+streamed-body(-1)", o: openapi3filter.Options{MultiError: true}, opaque: 2},
@@ -253,7 +256,13 @@ func c07Group(c *core.Ctx, ds, os c07sec, lay c07layout, bodyReq bool) {
 			so.AuthenticationFunc = func(ctx context.Context, ai *openapi3filter.AuthenticationInput) error {
 				*cur.trace = append(*cur.trace, ai.SecuritySchemeName+"("+strings.Join(ai.Scopes, ",")+")")
 				if cur.readBody && ai.RequestValidationInput.Request.Body != nil {
-					io.ReadAll(ai.RequestValidationInput.Request.Body)
+					// a callback that checks the body it is shown (as a signature check would): every call, for every scheme
+					// and alternative, must be shown the body as it was sent
+					seen, _ := io.ReadAll(ai.RequestValidationInput.Request.Body)
+					if !bytes.Equal(seen, cur.sent) {
+						cur.otherBody++
+						return errors.New("denied: the body shown to the callback is not the body that was sent")
+					}
 				}
 				if cur.ok[ai.SecuritySchemeName] {
 					return nil
@@ -264,7 +273,7 @@ func c07Group(c *core.Ctx, ds, os c07sec, lay c07layout, bodyReq bool) {
 		opts[i].shared = &so
 		opts[i].fp = Fingerprint(so)
 		var tr []string
-		cur.trace, cur.ok, cur.readBody = &tr, map[string]bool{"A": true, "B": true}, false
+		cur.trace, cur.ok, cur.readBody, cur.sent, cur.otherBody = &tr, map[string]bool{"A": true, "B": true}, false, nil, 0
 		hdr := http.Header{}
 		hdr.Set("X-H", "3")
 		if in, err := reqInput(router, newReq("GET", "http://h.t/c?q=5", hdr, nil), opts[i].shared); err == nil {
@@ -301,9 +310,11 @@ func c07Group(c *core.Ctx, ds, os c07sec, lay c07layout, bodyReq bool) {
 }
 
 type c07cur struct {
-	trace    *[]string
-	ok       map[string]bool
-	readBody bool
+	trace     *[]string
+	ok        map[string]bool
+	readBody  bool
+	sent      []byte // the body of the current request, as sent
+	otherBody int    // callback calls that were shown something else
 }
 
 func c07Case(c *core.Ctx, router routers.Router, ds, os c07sec, lay c07layout, bodyReq bool, eff []map[string][]string, ok map[string]bool, q, h, r, body string, op c07opt, cur *c07cur) {
@@ -376,7 +387,7 @@ func c07Case(c *core.Ctx, router routers.Router, ds, os c07sec, lay c07layout, b
 
 	// ---- run ----
 	var trace []string
-	cur.trace, cur.ok, cur.readBody = &trace, ok, op.readBody
+	cur.trace, cur.ok, cur.readBody, cur.sent, cur.otherBody = &trace, ok, op.readBody, bodyBytes, 0
 	o := *op.shared
 	in, err := reqInput(router, req, op.shared)
 	if err != nil {
@@ -415,6 +426,9 @@ func c07Case(c *core.Ctx, router routers.Router, ds, os c07sec, lay c07layout, b
 		kind := "false_accept"
 		if len(want) == 0 {
 			kind = "false_reject"
+		}
+		if cur.otherBody > 0 {
+			kind += "(callback shown another body)"
 		}
 		c.Violate(map[string]string{"kind": kind, "want": strings.Join(wantList, "+"), "options": op.name, "layout": lay.name}, mk(nil), desc+"\nmodel failing parts: "+strings.Join(wantList, ",")+"\nlibrary: "+fmt.Sprint(verr))
 		return
